@@ -302,6 +302,7 @@ func gen(c *lib.Ctx) {
 	}
 
 	c.Comment("ValidateRequest on decoded packets with arbitrary remaining bytes")
+	sawPanic := false
 	n := c.Scale(4000, 200000)
 	for i := 0; i < n; i++ {
 		ln := 48
@@ -323,6 +324,9 @@ func gen(c *lib.Ctx) {
 		want := "err size"
 		if ln >= 48 {
 			want = "ok " + lib.Bool(wellFormed(b[0]))
+		}
+		if strings.HasPrefix(ans, "panic") {
+			sawPanic = true
 		}
 		if ans != want {
 			c.Fail("C09:validate:packet", "ValidateRequest on a decoded packet depends on more than the first byte, or DecodePacket's size rule changed",
@@ -366,6 +370,12 @@ func gen(c *lib.Ctx) {
 	}
 
 	// ---- (b) the IP listener on loopback ------------------------------------------------
+	if sawPanic {
+		// a decoder panic in a listener goroutine would take this process down with it; the
+		// failing input is already recorded above
+		c.NotExecuted("IP listener on loopback: skipped because ntp.DecodePacket panicked in-process (the listener would crash)")
+		return
+	}
 	srvOnce.Do(startServer)
 	if srvErr != nil {
 		c.NotExecuted("IP listener on loopback: " + srvErr.Error())
